@@ -210,6 +210,35 @@ func init() {
 				c.Finish()
 			}
 		}},
+		// Ethereum-signed sends in the RLP.V2 envelope (oracle-only: account nonces are outside the ledger model) from
+		// senders that are not in the per-block account cache (first transaction of a block, after a failed
+		// transaction) and from warm ones: the nonce floor is advanced on the account record AFTER fee deduction and
+		// the handler ran; a transaction only moves tokens (`C04:total-supply-mismatch-rlp-v2`)
+		scenario{"rlp-v2-sends", func(o *drv.Out, prop string) {
+			g := baseGenesis()
+			for _, k := range EthKeys {
+				g.Accounts = append(g.Accounts, GenAcc{Addr: k.Addr, Amount: 1000000000})
+			}
+			g.Validators = []GenVal{{Key: BLSKeys[0], Stake: 1000000, Committees: []uint64{1}, Output: BLSKeys[0].Addr}}
+			c, _ := NewChain(o, prop, g)
+			emptyBlocks(c, 1)
+			a, b := EthKeys[0], EthKeys[1]
+			c.Mint()
+			c.EthSend(a, 0, EdKeys[0].Addr, 5000, 1, false) // first appearance in the block: cold anyway
+			c.EthSend(a, 1, EdKeys[0].Addr, 7000, 1, false) // warm
+			c.EthSend(a, 1, EdKeys[0].Addr, 7000, 1, false) // replay: nonce below the floor
+			c.End()
+			c.Mint()
+			c.Send(EdKeys[0], 10000, a.Addr, 123)           // a is written by a native tx first: warm
+			c.EthSend(a, 5, b.Addr, 900, 2, false)          // gap nonce
+			c.Send(EdKeys[1], 0, a.Addr, 1)                 // fails (fee): caches reset
+			c.EthSend(b, 0, a.Addr, 1000000, 1, false)      // cold after the failed transaction
+			c.EthSend(b, 1, b.Addr, 10, 1, true)            // self-send, explicitly cold
+			c.EthSend(a, 6, EdKeys[2].Addr, 2000000000, 1, true) // more than the balance: rejected
+			c.End()
+			emptyBlocks(c, 1)
+			c.Finish()
+		}},
 	)
 }
 
